@@ -36,6 +36,9 @@ def extra_networks(n0, k1, k2):
              [dict(ma([A], [], k1), delay=dict(type='gaussian', mean=0.05, std=0.5, reactants=[], products=[B]))]),
         spec('S9_gamma_delay', [A, B, C], {A: n0 + 1, B: 0, C: 0},
              [dict(ma([A], [C], k1), delay=dict(type='gamma', k=1.5, theta=0.2, reactants=[], products=[B, B])), ma([B], [], k2)]),
+        # order three with a repeated reactant, its species string written with blanks around the stars
+        spec('S10_spaced_species_string', [A, B, C], {A: n0 + 1, B: 2, C: 0},
+             [ma([A, A, B], [C], k1, ma_species_text='A * A * B'), ma([C], [A, A, B], k2)]),
         # the under-supplied reactions are NOT the first ones of the model (per-reaction scan state must be reset)
         spec('S7_late_consumers', [A, B, C], {A: n0, B: 1, C: 2},
              [ma([B], [A], k2), gen([A], [B], ('num', 1.7)), gen([C], [], ('num', 1.1)), gen([A, C], [B], ('num', 0.6))]),
@@ -171,6 +174,8 @@ def configs(tier):
                 if sim != 'volume':
                     # the same network reached through edits with rejected create_reaction calls in between
                     out.append(dict(spec=sp, sim=sim, safe=True, ma_only=False, bound=1, edited=True))
+                if sim == 'delay':
+                    out.append(dict(spec=sp, sim=sim, safe=True, ma_only=False, bound=1, entry=True))
     # seven species / eight channels and ten channels (small counts, so that the path search stays bounded)
     for sp in big_networks():
         if len(sp['reactions']) >= 8:
@@ -210,12 +215,23 @@ def run_config(c, cfg):
             return impl.run_ssa(us, TIMES, dt=qdt)
         if sim == 'volume':
             return e1.run_volume(impl, us, TIMES, qdt, dict(type='const', V=V))
+        if cfg.get('entry'):
+            # through py_simulate_model(delay=True), which makes its own queue: consecutive runs (also of other models of the same
+            # shape) must each start from an empty one
+            from bioscrape.simulator import py_simulate_model
+            from ..util import Stream
+            impl.start(None, 0.0, qdt)
+            with Stream(us) as st:
+                res = py_simulate_model(np.array(TIMES), Model=impl.model, stochastic=True, delay=True, safe=cfg['safe'], return_dataframe=False)
+            fq = res.py_get_delay_queue()
+            return dict(rows=impl.rows(res.py_get_result()), consumed=st.consumed, overrun=st.overrun, queue=e1._drain(fq, len(sp['reactions']), len(TIMES)),
+                        queue_next_time=None)
         # every run gets its queue as a copy of one template (independence of copies is part of what makes a path feasible)
         return e1.run_delay(impl, us, TIMES, qdt, len(TIMES), dt=qdt, template=template)
 
     def judge(us, tag, letters=None):
         got = impl_run(us)
-        if sim == 'delay':
+        if sim == 'delay' and not cfg.get('entry'):
             # differential: the same script on a queue that is a copy of the shared template and on a brand-new queue
             fresh_q = e1.run_delay(impl, us, TIMES, qdt, len(TIMES), dt=qdt)
             if got.get('template_touched'):
@@ -283,7 +299,7 @@ def run_config(c, cfg):
         judge(list(script), 'lattice')
         c.count('transitions', depth)
     c.count('states', len(states))
-    c.nontrivial((sp['name'], sim, cfg['safe'], str(sp['x0']), bool(cfg.get('edited'))))
+    c.nontrivial((sp['name'], sim, cfg['safe'], str(sp['x0']), bool(cfg.get('edited')), bool(cfg.get('entry'))))
 
 
 def run(ctx):
